@@ -28,7 +28,8 @@ def _is_project_root(directory: str) -> bool:
     if not os.path.isfile(cmake_path):
         return False
     with open(cmake_path, "r", encoding="utf-8", errors="ignore") as f:
-        return bool(re.search(r"^\s*project\s*\(", f.read(), re.MULTILINE))
+        # CMake command names are case-insensitive
+        return bool(re.search(r"^\s*project\s*\(", f.read(), re.MULTILINE | re.IGNORECASE))
 
 
 def _find_project_root(path: str, cache: Dict[str, Optional[str]]) -> Optional[str]:
